@@ -51,7 +51,7 @@ Theorem C05_geo_ownership ops h' g' xs :
      (off + len <= Geo.nlen (Geo.cdata (Geo.chunk_at h' c)))%N /\
      (Geo.nlen (Geo.cdata (Geo.chunk_at h' c)) <= Geo.ccap (Geo.chunk_at h' c))%N) /\
   (forall i j c oi li oj lj, i < j -> nth_error (Geo.gslices g') i = Some (Geo.SArena c oi li) ->
-     nth_error (Geo.gslices g') j = Some (Geo.SArena c oj lj) -> (oi + li <= oj)%N).
+     nth_error (Geo.gslices g') j = Some (Geo.SArena c oj lj) -> (oi + li <= oj \/ oj + lj <= oi)%N).
 Proof. exact (GeoAnchors.geo_ownership ops h' g' xs). Qed.
 
 (* non-vacuity: anchored input that is borrowed (300 bytes) next to copies, a chunk roll-over, consumption *)
